@@ -346,3 +346,67 @@ func VH_C03_C04_LargeBodies() {
 		}
 	}
 }
+
+// VH_C03_SameURLShapes: two (thorough: also three) exchanges for ONE URL in every shape the Variants machinery has
+// to tell apart - both without a Variants header, a plain exchange before / after a variant-keyed one, two
+// representations of a one-axis Variants header in either order, two different Variants headers - in a b1 and in a
+// b2 bundle, bodies symbolic.  Whatever the shape: either the writer refuses, or what it wrote is a well-formed
+// bundle that the reader accepts and that contains every exchange given (each body exactly once).  Seed C03-4 (the
+// "several exchanges for one URL need a Variants header" refusal made unreachable) was missed: every same-URL case
+// of VH_C03_Variants carried a Variants header.
+func VH_C03_SameURLShapes() {
+	vh.MustReach("refused", "written")
+	ver := []version.Version{version.VersionB1, version.VersionB2}[vh.Choose(2)]
+	u := c03MustURL("https://a/v")
+	bodies := vh.Bytes("bodies", 3)
+	plain := func(i int) *Exchange {
+		return &Exchange{Request{URL: u}, Response{Status: 200, Header: http.Header{"Content-Type": []string{"text/plain"}}, Body: []byte{bodies[i]}}}
+	}
+	keyed := func(i int, variants, key string) *Exchange {
+		return &Exchange{Request{URL: u}, Response{Status: 200, Header: http.Header{"Variants": []string{variants}, "Variant-Key": []string{key}}, Body: []byte{bodies[i]}}}
+	}
+	var es []*Exchange
+	switch vh.Choose(6) {
+	case 0:
+		es = []*Exchange{plain(0), plain(1)}
+	case 1:
+		es = []*Exchange{plain(0), keyed(1, "Accept-Language;en", "en")}
+	case 2:
+		es = []*Exchange{keyed(0, "Accept-Language;en", "en"), plain(1)}
+	case 3:
+		es = []*Exchange{keyed(0, "Accept-Language;en;ja", "ja"), keyed(1, "Accept-Language;en;ja", "en")}
+	case 4:
+		es = []*Exchange{keyed(0, "Accept-Language;en;ja", "en"), keyed(1, "Accept-Encoding;gzip;br", "br")}
+	case 5:
+		es = []*Exchange{plain(0), keyed(1, "Accept-Language;en;ja", "en"), keyed(2, "Accept-Language;en;ja", "ja")}
+	}
+	if vh.Tier() >= 1 && len(es) == 2 && vh.Choose(2) == 1 {
+		es = append(es, plain(2))
+	}
+	b := &Bundle{Version: ver, PrimaryURL: u, Exchanges: es}
+	var w vh.Sink
+	_, err := b.WriteTo(&w)
+	if err != nil {
+		vh.Reach("refused")
+		return
+	}
+	vh.Reach("written")
+	_, ok := refWellFormedBundle(w.B, ver == version.VersionB1)
+	vh.Assert(ok, "what the writer accepted is a well-formed bundle")
+	back, rerr := Read(bytes.NewReader(w.B))
+	vh.Assert(rerr == nil && back != nil, "what the writer accepted, the reader accepts")
+	if rerr != nil || back == nil {
+		return
+	}
+	vh.Assert(len(back.Exchanges) == len(es), "no exchange dropped or duplicated")
+	for i := range es {
+		n := 0
+		for _, e := range back.Exchanges {
+			if len(e.Response.Body) == 1 && e.Response.Body[0] == bodies[i] && e.Request.URL.String() == u.String() &&
+				e.Response.Header.Get("Variant-Key") == es[i].Response.Header.Get("Variant-Key") {
+				n++
+			}
+		}
+		vh.Assert(n >= 1, "every exchange given comes back with its body and Variant-Key")
+	}
+}
